@@ -573,8 +573,16 @@ func (cx *Ctx) c15Real(r *rng) map[string]any {
 	runs := 0
 	var jobs []*spec.Job
 	for i, c := range cfgs {
-		jobs = append(jobs, &spec.Job{ID: i, Kind: "stress", Calls: calls, Goroutines: c.g, Rounds: rounds})
-		runs += c.g * rounds
+		// fewer rounds where fewer cores do the work, so that every configuration takes about the same wall time
+		rr := rounds
+		switch c.procs {
+		case "4":
+			rr = max(4, rounds/2)
+		case "1":
+			rr = max(3, rounds/6)
+		}
+		jobs = append(jobs, &spec.Job{ID: i, Kind: "stress", Calls: calls, Goroutines: c.g, Rounds: rr})
+		runs += c.g * rr
 	}
 	out := map[string]any{"inputs": len(calls), "goroutine_runs": runs, "configs": []string{"GOMAXPROCS=16 x 64 goroutines", "GOMAXPROCS=4 x 32 goroutines", "GOMAXPROCS=1 x 16 goroutines"},
 		"note": "runtime monitoring of real threads (not simulation): covers heap objects reached through aliases and kind-U accesses that O2 cannot see"}
@@ -582,6 +590,11 @@ func (cx *Ctx) c15Real(r *rng) map[string]any {
 	for i, c := range cfgs {
 		p := cx.racePool()
 		p.Env = append(p.Env, "GOMAXPROCS="+c.procs)
+		if cx.Tier == "thorough" {
+			p.Timeout = 2 * time.Hour
+		} else {
+			p.Timeout = 30 * time.Minute
+		}
 		rs := p.Run([]*spec.Job{jobs[i]}, nil)
 		if rs[0].Timeout {
 			cx.trouble("real-thread stress timed out")
